@@ -10,7 +10,7 @@ import subprocess
 import sys
 import time
 
-src, n, name, props = sys.argv[1], sys.argv[2], sys.argv[3], sys.argv[4:]
+src, n, name, props = os.path.abspath(sys.argv[1]), sys.argv[2], sys.argv[3], sys.argv[4:]
 ROOT = os.path.dirname(os.path.dirname(os.path.abspath(__file__)))
 patch = os.path.join(src, f'patch{n}.diff')
 demo = next(os.path.join(src, f) for f in (f'demo{n}.py', f'demo{n}.sh') if os.path.exists(os.path.join(src, f)))
